@@ -257,7 +257,7 @@ func ExtractWirePrograms(p *Program) map[string]*WireProg {
 				sig := obj.Type().(*types.Signature)
 				side := coderSide(sig)
 				if side == "" {
-					if !bodyTouchesCoder(pkg.TypesInfo, fd.Body) {
+					if !bodyTouchesCoder(pkg.TypesInfo, fd.Body) && !callsHashAllHelper(pkg, fd.Body) {
 						continue
 					}
 					side = "hash"
@@ -489,6 +489,12 @@ func (w *wireWalker) involvesCoder(n ast.Node) bool {
 				if id, ok := c.Fun.(*ast.Ident); ok && id.Name == "hashAll" {
 					found = true
 					return false
+				}
+				if fn, _ := typeutil.Callee(w.info, c).(*types.Func); fn != nil && w.pkg != nil {
+					if inner, _ := w.hashAllHelper(fn); inner != nil {
+						found = true
+						return false
+					}
 				}
 			}
 			if id, ok := e.(*ast.Ident); ok {
@@ -1328,6 +1334,19 @@ func (w *wireWalker) call(c *ast.CallExpr, lhs string) []Op {
 		if fn.Name() == "hashAll" && sig.Variadic() && sig.Recv() == nil {
 			return w.hashAllOps(c)
 		}
+		// an unexported helper of this package whose whole body is "return hashAll(…)": the call is that hash, with
+		// the helper's receiver and parameters standing for the arguments
+		if inner, fd := w.hashAllHelper(fn); inner != nil {
+			if fd.Recv != nil && len(fd.Recv.List) == 1 && len(fd.Recv.List[0].Names) == 1 {
+				if sel, ok := stripParens(c.Fun).(*ast.SelectorExpr); ok {
+					if o := w.info.Defs[fd.Recv.List[0].Names[0]]; o != nil {
+						w.paths[o] = w.pathOf(sel.X)
+					}
+				}
+			}
+			w.bindParams(fd.Type, c.Args)
+			return w.hashAllOps(inner)
+		}
 		// generic helpers of package types
 		if fn.Pkg() != nil && fn.Pkg().Path() == modPath+"/types" && sig.Recv() == nil {
 			if ops, ok := w.helper(fn, c, lhs); ok {
@@ -1351,7 +1370,24 @@ func (w *wireWalker) call(c *ast.CallExpr, lhs string) []Op {
 							}
 						}
 					}
-					op := Op{Kind: "ref", Typ: typeName(rt), Path: w.pathOf(sel.X), Pos: c.Pos()}
+					recvPath := w.pathOf(sel.X)
+					// a method promoted through embedded fields belongs to the embedded type, at the embedded field's path
+					if se := w.info.Selections[sel]; se != nil && len(se.Index()) > 1 {
+						t := rt
+						for _, ix := range se.Index()[:len(se.Index())-1] {
+							if pt, isPtr := t.Underlying().(*types.Pointer); isPtr {
+								t = pt.Elem()
+							}
+							st, isStruct := t.Underlying().(*types.Struct)
+							if !isStruct || ix >= st.NumFields() {
+								break
+							}
+							recvPath += "." + st.Field(ix).Name()
+							t = st.Field(ix).Type()
+						}
+						rt = t
+					}
+					op := Op{Kind: "ref", Typ: typeName(rt), Path: recvPath, Pos: c.Pos()}
 					if !std {
 						op.Typ = typeName(rt) + "." + fn.Name()
 					}
@@ -2169,7 +2205,7 @@ func (w *wireWalker) fieldTable(e ast.Expr) []string {
 		return nil
 	}
 	fn, _ := typeutil.Callee(w.info, call).(*types.Func)
-	if fn == nil || fn.Pkg() == nil || fn.Pkg() != w.pkg.Types {
+	if fn == nil || fn.Pkg() == nil || fn.Pkg() != w.pkg.Types || fn.Exported() {
 		return nil
 	}
 	var fd *ast.FuncDecl
@@ -2231,4 +2267,53 @@ func (w *wireWalker) fieldTable(e ast.Expr) []string {
 		out = append(out, base+"."+strings.Join(names, "."))
 	}
 	return out
+}
+
+// hashAllHelper: fn is an unexported function or method of the walked package whose body is exactly
+// "return hashAll(args…)": that call and the declaration.
+func (w *wireWalker) hashAllHelper(fn *types.Func) (*ast.CallExpr, *ast.FuncDecl) {
+	if fn == nil || fn.Pkg() == nil || fn.Pkg() != w.pkg.Types || fn.Exported() {
+		return nil, nil
+	}
+	for _, f := range w.pkg.Syntax {
+		for _, d := range f.Decls {
+			fd, ok := d.(*ast.FuncDecl)
+			if !ok || w.info.Defs[fd.Name] != types.Object(fn) || fd.Body == nil || len(fd.Body.List) != 1 {
+				continue
+			}
+			ret, ok := fd.Body.List[0].(*ast.ReturnStmt)
+			if !ok || len(ret.Results) != 1 {
+				return nil, nil
+			}
+			call, ok := stripParens(ret.Results[0]).(*ast.CallExpr)
+			if !ok {
+				return nil, nil
+			}
+			if id, ok := stripParens(call.Fun).(*ast.Ident); ok && id.Name == "hashAll" {
+				return call, fd
+			}
+			return nil, nil
+		}
+	}
+	return nil, nil
+}
+
+// callsHashAllHelper: the body calls an unexported function of its package whose whole body is "return hashAll(…)".
+func callsHashAllHelper(pkg *packages.Package, body ast.Node) bool {
+	w := &wireWalker{pkg: pkg, info: pkg.TypesInfo}
+	found := false
+	ast.Inspect(body, func(n ast.Node) bool {
+		if found {
+			return false
+		}
+		if c, ok := n.(*ast.CallExpr); ok {
+			if fn, _ := typeutil.Callee(pkg.TypesInfo, c).(*types.Func); fn != nil {
+				if inner, _ := w.hashAllHelper(fn); inner != nil {
+					found = true
+				}
+			}
+		}
+		return !found
+	})
+	return found
 }
